@@ -29,6 +29,8 @@ static int _notify_connect(void *ctx, MPT_INTERFACE(convertable) *val, const MPT
 			return in ? MPT_ERROR(BadOperation) : MPT_ERROR(BadValue);
 		}
 		if ((ret = mpt_notify_add(no, POLLIN, in)) < 0) {
+			/* reference was not taken over */
+			in->_vptr->meta.unref((void *) in);
 			return ret;
 		}
 		return 1;
@@ -69,6 +71,8 @@ static int _notify_listen(void *ctx, MPT_INTERFACE(convertable) *val, const MPT_
 			return in ? MPT_ERROR(BadOperation) : MPT_ERROR(BadValue);
 		}
 		if ((ret = mpt_notify_add(no, POLLIN, in)) < 0) {
+			/* reference was not taken over */
+			in->_vptr->meta.unref((void *) in);
 			return ret;
 		}
 		return 1;
@@ -101,7 +105,7 @@ extern int mpt_notify_config(MPT_STRUCT(notify) *no, const MPT_INTERFACE(config)
 {
 	static const char con[] = "mpt.connect";
 	static const char bind[] = "mpt.listen";
-	MPT_INTERFACE(metatype) *global;
+	MPT_INTERFACE(metatype) *global = 0;
 	MPT_STRUCT(path) path = MPT_PATH_INIT;
 	int off, cret, bret, ncon;
 	
